@@ -9,8 +9,9 @@ Transcribes, as small total functions over `List Char` strings and component lis
       ("stars match zero or more module components");
 * §3  `Options.apply_changes` (plain overwrite; the accumulate/override rule for the error-code sets);
 * §4  `Options.build_per_module_cache` / `clone_for_module` (sorted structured wildcards, then concrete
-      sections; nearest structured ancestor; unstructured globs in file order) and the declarative
-      *documented precedence* (`specResolve`);
+      sections; nearest structured ancestor; unstructured globs in file order), how `parse_config_file`
+      fills the section table from ini sections / toml override tables (`iniSections`, `tomlSections`), and
+      the declarative *documented precedence* (`specResolve`);
 * §5  `config_parser.parse_section` key resolution (`no_`, `allow`/`disallow`, `show_`→`hide_`, the
       deprecated alias, reports, `x_`, invalid aliases, boolean parsing) and `main.invert_flag_name`;
 * §6  `config_parser.parse_mypy_comments` merging of several inline comments, and the whole chain
@@ -256,6 +257,38 @@ def buildCache (g : Opts) (secs : Sections) : Cache :=
 def cloneForModule (g : Opts) (secs : Sections) (m : Pat) : Opts :=
   cloneWith g secs (buildCache g secs) m
 
+/-! ### how `parse_config_file` fills `per_module_options` -/
+
+/-- `dict.update`: keys of `new` override, new keys are added -/
+def dictUpdate (old new : Changes) : Changes :=
+  old.filter (fun kv => (new.lookup kv.1).isNone) ++ new
+
+
+/-- a config-file section `[mypy-p1,p2,…]` (or one `[[tool.mypy.overrides]]` table with `module = [p1, p2, …]`)
+    with its parsed body -/
+abbrev FileSection := List Pat × Changes
+
+/-- `d[k] = v` on an insertion-ordered dict: an existing key keeps its position and gets the new value -/
+def dictAssign (d : Sections) (k : Pat) (v : Changes) : Sections :=
+  if (d.lookup k).isSome then d.map (fun kv => if kv.1 == k then (k, v) else kv) else d ++ [(k, v)]
+
+/-- `parse_config_file` on an ini file: `for glob in globs.split(","): options.per_module_options[glob] = updates` -/
+def iniSections (fs : List FileSection) : Sections :=
+  fs.foldl (fun d s => s.1.foldl (fun d g => dictAssign d g s.2) d) []
+
+/-- `destructure_overrides` + `parse_config_file` on pyproject.toml: the tables of one module are merged key by
+    key (later tables override; the real code raises on conflicting values) -/
+def dictMerge (d : Sections) (k : Pat) (v : Changes) : Sections :=
+  match d.lookup k with
+  | some old => d.map (fun kv => if kv.1 == k then (k, dictUpdate old v) else kv)
+  | none => d ++ [(k, v)]
+
+def tomlSections (fs : List FileSection) : Sections :=
+  fs.foldl (fun d s => s.1.foldl (fun d g => dictMerge d g s.2) d) []
+
+/-- the documented meaning: a section applies to each of its patterns -/
+def flatSections (fs : List FileSection) : Sections := fs.flatMap (fun s => s.1.map (fun g => (g, s.2)))
+
 /-! ### the documented precedence (docs/source/config_file.rst, "config-precedence") -/
 
 /-- `foo.*`, `foo.bar.*`, … for the module `foo.bar.…`, most general first -/
@@ -405,10 +438,6 @@ def dedupSorted : List Str → List Str
 /-- `sorted(set(xs))` -/
 def sortedSet (xs : List Str) : List Str := dedupSorted (isort strLe xs)
 
-/-- `dict.update`: keys of `new` override, new keys are added -/
-def dictUpdate (old new : Changes) : Changes :=
-  old.filter (fun kv => (new.lookup kv.1).isNone) ++ new
-
 /-- `new_sections[k] = sorted(set(new_sections[k] + sections.get(k, [])))` when both are lists -/
 def mergeListKey (sections : Changes) (k : Str) (n : Changes) : Changes :=
   match n.lookup k with
@@ -455,6 +484,12 @@ def Opts.processErrorCodes (o : Opts) : Opts :=
     argparse writes the command-line values over them, then the error-code lists are processed -/
 def globalOptions (defaults : Opts) (iniGlobal : Changes) (cli : List CliArg) : Opts :=
   Opts.processErrorCodes { defaults with get := applyCli (setAll defaults.get iniGlobal) cli }
+
+/-- `strict = True` in a config file: `parse_section` calls `set_strict_flags()`, the closure that
+    `process_options` built over the *global* `Options` object — whichever section the key stands in.
+    `sectionHasStrict`: one entry per section of the file (`[mypy]` first), true when it says `strict = True`. -/
+def strictApplied (g : Opts) (strictAssign : Changes) (sectionHasStrict : List Bool) : Opts :=
+  if sectionHasStrict.any id then { g with get := setAll g.get strictAssign } else g
 
 /-- the options a file is checked with: `State.__init__` takes `clone_for_module(id)`, then
     `apply_inline_configuration` applies the merged inline comments (if any) -/
